@@ -1,0 +1,21 @@
+// Copyright ©2011-2012 The bíogo Authors. All rights reserved.
+// Use of this source code is governed by a BSD-style
+// license that can be found in the LICENSE file.
+
+//go:build !verif
+// +build !verif
+
+package morass
+
+import (
+	"encoding/gob"
+	"os"
+)
+
+func verifStep(point string, n int) error { return nil }
+
+func verifEncoder(point string, n int, enc *gob.Encoder) *gob.Encoder { return enc }
+
+func verifDecoder(point string, n int, dec *gob.Decoder) *gob.Decoder { return dec }
+
+func verifDiscard(tf *os.File) {}
